@@ -15,6 +15,10 @@ fn main() {
         println!("{}", engine::union_count(&args[1..]));
         return;
     }
+    if args[0] == "extract-corpus" {
+        extract_corpus();
+        return;
+    }
     let id = args[0].clone();
     let mut opts = Opts {
         tier: Tier::Quick,
@@ -71,4 +75,32 @@ fn main() {
     }
     let code = props::dispatch(&id, &opts);
     std::process::exit(code);
+}
+
+/// Decodes /repo/tests/libsml-testing/*.bin and writes every decoded payload to
+/// corpus-seed/sml/NNN.bin and every raw transmission to corpus-seed/transport/NNN.bin.
+fn extract_corpus() {
+    use smlverif::gen::pinput::CORPUS_DIR;
+    let src = "/repo/tests/libsml-testing";
+    let mut names: Vec<_> = std::fs::read_dir(src).expect("test data").filter_map(|e| e.ok()).map(|e| e.path()).filter(|p| p.extension().map(|x| x == "bin").unwrap_or(false)).collect();
+    names.sort();
+    std::fs::create_dir_all(format!("{}/sml", CORPUS_DIR)).unwrap();
+    std::fs::create_dir_all(format!("{}/transport", CORPUS_DIR)).unwrap();
+    let mut n = 0;
+    let mut seen = std::collections::HashSet::new();
+    for (fi, name) in names.iter().enumerate() {
+        let bytes = std::fs::read(name).unwrap();
+        if fi % 4 == 0 {
+            std::fs::write(format!("{}/transport/{:03}.bin", CORPUS_DIR, fi), &bytes[..bytes.len().min(2000)]).unwrap();
+        }
+        for r in sml_rs::transport::decode(&bytes) {
+            if let Ok(p) = r {
+                if seen.insert(p.clone()) {
+                    std::fs::write(format!("{}/sml/{:03}.bin", CORPUS_DIR, n), &p).unwrap();
+                    n += 1;
+                }
+            }
+        }
+    }
+    println!("wrote {} payloads", n);
 }
